@@ -44,6 +44,9 @@ where
 {
   pub(crate) subscriptions: HashMap<K, Arc<SubscriberList<K, T>>>,
   pub(crate) receiver_count: AtomicUsize,
+  /// Number of sender handles that are neither closed nor dropped. Only the
+  /// close/drop of the last one disconnects the receivers.
+  pub(crate) sender_count: AtomicUsize,
 }
 
 impl<K, T> fmt::Debug for SpmcTopicDispatcher<K, T>
@@ -75,6 +78,8 @@ where
     Self {
       subscriptions: HashMap::new(),
       receiver_count: AtomicUsize::new(0),
+      // `channel`/`channel_async` create exactly one sender handle.
+      sender_count: AtomicUsize::new(1),
     }
   }
 }
